@@ -384,6 +384,11 @@ theorem c08_returned_stable_init (grow : Nat → Nat → Nat) (before : List Pkt
   exact c08_returned_stable grow s0.1 s0.2.1 p hwf s1.1 s1.2.1 u
     (by show sdecode grow true s0.1 s0.2.1 p = (s1.1, s1.2.1, .ok u); rw [← hu]) later
 
+/-- (F) the code this theorem is about is the repaired one: both return paths of
+`rtpklv/decoder.go` hand the buffer over (`d.buffer = nil` occurs twice); regenerated from /repo on
+every run — if a hand-over disappears this stops compiling -/
+theorem c08_handover_in_code : Rtsp.Facts.CodecMisc.klvBufferHandedOver = 2 := by decide
+
 /-! ## the original code (`handOver = false`) does alias: the recorded failure -/
 
 def exPkt (sq : UInt16) (ts : UInt32) (b : UInt8) : Pkt :=
